@@ -24,17 +24,21 @@ class Scenario:
             self.start("P0", hold=0)
             self.wait_all()
 
-    def start(self, wid, park=None, hold=0, delay=0):
+    def start(self, wid, park=None, hold=0, delay=0, grow=0):
         env = dict(vlib.ENV)
         env["LD_PRELOAD"] = crashcheck.SHIM
         env["JSHIM_PATH"] = "jverif-proc.db"
         env["JSHIM_LOG"] = "/dev/null"
+        extra = []
         if park:
             fifo = os.path.join(self.dir, "fifo-" + wid)
             os.mkfifo(fifo)
             self.fifos[wid] = fifo
-            env["JSHIM_PARK"] = "%s:%d:%s" % (park[0], park[1], fifo)
-        self.procs[wid] = subprocess.Popen([vlib.JHARNESS, "proc", self.db, wid, str(self.pagesize), self.log, str(hold), str(delay)], env=env,
+            if park[0] == "inside":
+                extra = [fifo]  # the worker itself waits once `open` has returned (the lock call is a raw system call the shim cannot see)
+            else:
+                env["JSHIM_PARK"] = "%s:%d:%s" % (park[0], park[1], fifo)
+        self.procs[wid] = subprocess.Popen([vlib.JHARNESS, "proc", self.db, wid, str(self.pagesize), self.log, str(hold), str(delay), str(grow)] + extra, env=env,
                                            stdout=subprocess.DEVNULL, stderr=subprocess.DEVNULL)
 
     def wait_parked(self, wid, timeout=10):
@@ -73,6 +77,16 @@ class Scenario:
         self.procs = {}
         return hung
 
+    def wait_logged(self, wid, what, timeout=10):
+        t0 = time.time()
+        while time.time() - t0 < timeout:
+            if any(l.startswith("%s %s " % (wid, what)) for l in self.observations()):
+                return True
+            if self.procs[wid].poll() is not None:
+                return False
+            time.sleep(0.005)
+        return False
+
     def observations(self):
         return [l.rstrip("\n") for l in open(self.log)] if os.path.exists(self.log) else []
 
@@ -92,6 +106,17 @@ def scenarios(scratch, quick, r):
             sc.release("P1")
             hung = sc.wait_all()
             yield (sc.name, "existing", ["scenario %s existing parked=%s hung=%s" % (sc.name, parked, ",".join(hung) or "-")] + sc.observations())
+    # G: the holder's commit grows the file while a late opener is already waiting inside `open`
+    # (parked once `open` has returned the holder has not grown the file yet; at write / fsync it has)
+    for call, nth in [("inside", 1), ("write", 1), ("fsync", 1)]:
+        sc = Scenario(scratch, "g-%s%d" % (call, nth), existing=True)
+        sc.start("P1", park=(call, nth), grow=300)
+        parked = sc.wait_parked("P1")
+        sc.start("P2", hold=2)
+        time.sleep(0.15)
+        sc.release("P1")
+        hung = sc.wait_all(timeout=60)
+        yield (sc.name, "existing", ["scenario %s existing parked=%s hung=%s" % (sc.name, parked, ",".join(hung) or "-")] + sc.observations())
     # random start offsets and hold times, no parking
     for k in range(3 if quick else 20):
         sc = Scenario(scratch, "e-rand%d" % k, existing=True)
@@ -109,3 +134,12 @@ def scenarios(scratch, quick, r):
         sc.release("P1")
         hung = sc.wait_all()
         yield (sc.name, "create", ["scenario %s create parked=%s@%s%d hung=%s" % (sc.name, parked, call, nth, ",".join(hung) or "-")] + sc.observations())
+    # H: the holder is the process that created the file; it is fully open (it has committed) when the
+    # second opener arrives
+    for k, hold in enumerate([150, 400] if quick else [50, 150, 400, 800]):
+        sc = Scenario(scratch, "n-held%d" % k, existing=False)
+        sc.start("P1", hold=hold)
+        inside = sc.wait_logged("P1", "worked")
+        sc.start("P2", hold=2)
+        hung = sc.wait_all()
+        yield (sc.name, "create", ["scenario %s create parked=%s@held hung=%s" % (sc.name, inside, ",".join(hung) or "-")] + sc.observations())
